@@ -8,7 +8,8 @@ RULE = (
     "hy.REPL is driven in-process: every line is passed to runsource accumulated with the lines before it, as "
     "code.InteractiveConsole.push does; stdout/stderr are captured per call and the REPL's namespace is read after each call. "
     "Three generators. (1) ENUMERATED histories: every sequence of input kinds {value, None-valued, blank, read error, compile "
-    "error, macro-expansion error, run-time error} up to length 4 (quick) / 5 (thorough), shapes and layouts rotating. (2) RANDOM "
+    "error, macro-expansion error, run-time error} up to length 4 (quick) / 5 (thorough), shapes and layouts rotating; plus two inputs that each define a function inside a top-level let binding the same name, an input of every "
+    "kind and shape between and after them, then calls of both functions (a closure over one input's let variable must keep its value). (2) RANDOM "
     "histories of 1..12 inputs drawn from a catalogue of ~85 input shapes (literals, calls, strings and bracket strings containing "
     "newlines/delimiters, collections, quoted data, definitions used by later inputs, multi-form inputs, print side effects, caught "
     "exceptions, inputs that fail after a side effect), each laid out over several lines by breaking only inside an open delimiter, "
@@ -163,6 +164,24 @@ def shard(ctx):
             steps = [[k, code * 5 + pos * 3 + length, ([0, 6, 1, 7, 2] if multi else []), 0, (code + pos) % 2] for pos, k in enumerate(seq)]
             inputs = S.build_session(steps)
             run_inputs(dict(inputs=inputs), inputs, "enumerated-kind-sequence")
+
+    # (1b) enumerated: two inputs that each define a function inside a top-level let binding the same name, an input of
+    # every kind and shape between and after them, then calls of both functions (temporaries of one input outlive it)
+    SH = S.shapes()
+    idx_of = lambda kind, label: [i for i, (l, _) in enumerate(SH[kind]) if l == label][0]  # noqa: E731
+    d_none, d_call = idx_of("none", "let-closure"), idx_of("value", "let-closure-call")
+    n = 0
+    for kind in KIND_CODES:
+        for shape in range(len(SH[kind])):
+            for first in ("none", "value"):
+                n += 1
+                if n % ctx.n != ctx.k or ctx.out_of_time():
+                    continue
+                d1 = ["none", d_none, [], 0, 0] if first == "none" else ["value", d_call, [], 0, 0]
+                mid = [kind, shape, [], 0, 0]
+                steps = [d1, mid, ["none", d_none, [], 0, 0], mid] + [["value", d_call, [], 0, 0]] * 3
+                inputs = S.build_session(steps)
+                run_inputs(dict(inputs=inputs), inputs, "enumerated-let-closures")
 
     # (2) random histories
     kind = st.sampled_from(["value"] * 7 + ["none"] * 3 + ["blank"] + ["read"] * 2 + ["compile"] * 2 + ["macro"] + ["run"] * 4)
